@@ -314,6 +314,11 @@ def judge_construction(content, ri, form, thunk, dedup, universe, emit):
     n += 1
     if o != ("ok", len(exp)):
         emit("len", "value", "len -> %r with spans %r" % (o[-1], list(exp)))
+    # an iteration that is still open while a second one runs and membership is asked (nothing is modified)
+    o = observe(lambda: [(tuple(x), [tuple(y) for y in S], x in S) for x in S])
+    n += 1
+    if o != ("ok", [(x, list(exp), mem(x, exp, ri)) for x in exp]):
+        emit("iter", "nested", "[(x, list(S), x in S) for x in S] -> %r with S holding %r" % (o[-1], list(exp)))
     for x in universe:
         o = observe(operator.contains, S, x)
         n += 1
